@@ -818,7 +818,25 @@ fn exec_call(c: &CallSpec, obs: &mut Obs) -> Result<(), Fail> {
         }
         CallSpec::Ccy(s) => match guard(|| Ccy::try_new(s)) {
             Err(p) => return Err(panic_to("Ccy::try_new", p, format!("name {:?}", s))),
-            Ok(Ok(_)) => obs.count("call.Ccy::try_new.ok"),
+            Ok(Ok(c)) => {
+                // the constructor's documented rule: a 3-character (3-byte) name
+                let name = serde_json::to_value(c)
+                    .ok()
+                    .and_then(|v| v["name"].as_str().map(|x| x.to_string()))
+                    .unwrap_or_default();
+                if name.len() != 3 {
+                    return Err(shape_to(
+                        "Ccy::try_new",
+                        format!(
+                            "Ccy::try_new({:?}) returned a currency named {:?} ({} bytes, not 3)",
+                            s,
+                            name,
+                            name.len()
+                        ),
+                    ));
+                }
+                obs.count("call.Ccy::try_new.ok")
+            }
             Ok(Err(_)) => obs.count("call.Ccy::try_new.err"),
         },
         CallSpec::FxPair(a, b) => match guard(|| FXPair::try_new(a, b)) {
@@ -1134,7 +1152,8 @@ fn emit_doc_faults(seed: u64, tier: Tier, unit: u64, sink: &mut dyn FnMut(Plan) 
 
 const ODD_CCY: &[&str] = &[
     "", "u", "us", "usd", "USD", "UsD", "usdx", "usdxy", "é", "éa", "ééé", "日本", "u d", "   ",
-    "\u{1F600}", "12a", "a\0b", "ǅa", "ß1", "İi",
+    "\u{1F600}", "12a", "a\0b", "ǅa", "ß1", "İi", "İ", "\u{212A}", "\u{212B}", "\u{2126}", "\u{1E9E}",
+    "\u{212A}sd", "u\u{212A}", "ΑΒ", "ΣΣ", "ǅ", "ᾈ", "ﬁa",
 ];
 
 fn all_i8() -> Vec<i32> {
@@ -1289,7 +1308,28 @@ fn emit_calls(seed: u64, tier: Tier, unit: u64, sink: &mut dyn FnMut(Plan) -> bo
                     sink(Plan::Call(CallSpec::FxRate(b.to_string(), a.to_string())));
                 }
             }
-            let parts = ["tgt", "LDN", "", "xyz", "nyc,fed", "all,", ",bus", " ", "stk , osl", "é"];
+            let parts = [
+                "tgt",
+                "LDN",
+                "",
+                "xyz",
+                "nyc,fed",
+                "all,",
+                ",bus",
+                " ",
+                "stk , osl",
+                "é",
+                "東京証券取引所の休日カレンダーの名前です",
+                "a€bb€€ccc€€€dddd€€€€eeeee€€€€€ffffff",
+                "zzzzzzzzzzzzzzzzzzzzzzzzzzzzzzzzzzzzzzzzzzzzzzzzzzzzzzzzzzzzzzzzzzzzzzzz",
+                "\u{1F600}\u{1F600}\u{1F600}\u{1F600}\u{1F600}\u{1F600}\u{1F600}\u{1F600}x\u{1F600}\u{1F600}",
+            ];
+            // every byte offset of a long multi-byte name gets a chance to straddle a cut
+            for pad in 0..8usize {
+                let name = format!("{}{}", "x".repeat(pad), "東京証券取引所の休日カレンダーの名前です€€");
+                sink(Plan::Call(CallSpec::NamedCal(name.clone())));
+                sink(Plan::Call(CallSpec::NamedCal(format!("tgt,ldn|{}", name))));
+            }
             for _ in 0..120 {
                 let pipes = r.usize_in(0, 3);
                 let mut s = String::new();
@@ -1386,6 +1426,35 @@ fn emit_calls(seed: u64, tier: Tier, unit: u64, sink: &mut dyn FnMut(Plan) -> bo
         }
         _ => {
             // csolve with matched and mismatched inputs
+            // degenerate but legal splines: no or one coefficient
+            for (k, t) in [
+                (2usize, vec![0.0, 1.0]),
+                (3, vec![0.0, 0.0, 1.0]),
+                (1, vec![0.0, 1.0]),
+                (2, vec![0.0, 0.5, 1.0]),
+                (4, vec![1.0, 1.0, 2.0, 2.0]),
+            ] {
+                for kind in 0..3u8 {
+                    let spec = SplineSpec {
+                        kind,
+                        k,
+                        t: t.iter().map(|x| Fx::new(*x)).collect(),
+                    };
+                    let n = t.len() - k;
+                    for ntau in [0usize, n, n + 1] {
+                        for allow_lsq in [false, true] {
+                            sink(Plan::Call(CallSpec::Csolve {
+                                spec: spec.clone(),
+                                tau: (0..ntau).map(|i| Fx::new(t[0] + 0.1 * i as f64)).collect(),
+                                y: (0..ntau).map(|_| Num::F(Fx::new(1.5))).collect(),
+                                left_n: 0,
+                                right_n: 0,
+                                allow_lsq,
+                            }));
+                        }
+                    }
+                }
+            }
             for _ in 0..30 {
                 let spec = gen_spline(r);
                 let good = gen_solve(r, &spec, false);
